@@ -8,11 +8,14 @@
 (*   "nan"      unequal to everything, itself included (f64::NAN)          *)
 (*   "difftag"  equal iff same class and DIFFERENT tag (an arbitrary,      *)
 (*              non-reflexive equality)                                    *)
+(*   "near"     equal iff the tags (numbers) differ by at most 1: a        *)
+(*              reflexive, symmetric, NON-TRANSITIVE equality              *)
 (***************************************************************************)
 EXTENDS Integers, Sequences, FiniteSets
 
-Eq(x, y) == /\ x.m # "nan" /\ y.m # "nan" /\ x.k = y.k
-            /\ (x.m = "difftag" => x.t # y.t)
+Eq(x, y) == IF x.m = "near" THEN x.t - y.t <= 1 /\ y.t - x.t <= 1
+            ELSE /\ x.m # "nan" /\ y.m # "nan" /\ x.k = y.k
+                 /\ (x.m = "difftag" => x.t # y.t)
 
 \* [data', tok]: outcome of the two operations on the value list `data'
 AppendOp(data, v) == [data |-> Append(data, v), tok |-> Len(data)]          \* "the n-th appended value has index n-1"
